@@ -141,6 +141,36 @@ def native_heap(prop, tier, seed):
                            'axcut2backend::statements::substitute::Substitute::code_statement'])
 
 
+@register('native_linearize')
+def native_linearize(prop, tier, seed):
+    sums, cmd = native_run(['linearize', '--tier', tier, '--seed', str(seed)])
+    return _native_result('native_linearize', sums, cmd,
+                          ['axcut::syntax::Prog::linearize', 'axcut::syntax::Def::linearize', 'axcut::traits::linearize::Linearizing for {Call,Let,Switch,Create,Invoke,Literal,Op,PrintI64,IfC,Substitute}',
+                           'axcut::traits::free_vars::FreeVars', 'axcut::syntax::context::TypingContext::{freshen,filter_by_set}'])
+
+
+def _programs(prop, tier, seed, backend):
+    sums, cmd = native_run(['programs', '--backend', backend, '--tier', tier, '--seed', str(seed)])
+    return _native_result('native_programs/' + backend, sums, cmd,
+                          ['axcut2backend::coder::compile', 'axcut2backend::statements::*::code_statement', 'axcut2backend::utils::{code_table,code_clauses,code_methods}',
+                           '<%s>::{code,memory,parallel_moves,utils,config,into_routine}::*' % backend], backend)
+
+
+@register('native_programs_x86')
+def native_programs_x86(prop, tier, seed):
+    return _programs(prop, tier, seed, 'x86_64')
+
+
+@register('native_programs_a64')
+def native_programs_a64(prop, tier, seed):
+    return _programs(prop, tier, seed, 'aarch64')
+
+
+@register('native_programs_rv')
+def native_programs_rv(prop, tier, seed):
+    return _programs(prop, tier, seed, 'rv64')
+
+
 def _emitters(prop, tier, seed, backend):
     sums, cmd = native_run(['emitters', '--backend', backend, '--seed', str(seed)])
     return _native_result('native_emitters/' + backend, sums, cmd, ['<%s>::code::Instructions::*' % backend], backend)
